@@ -80,7 +80,7 @@ def run(ctx):
     quick = ctx["tier"] == "quick"
     wd = ctx["wd"]
     n = 150 if quick else 4000
-    cases = list(CORPUS) + [gen_world_case(rng, "g%d" % i, PROFILE) if i % 4 else gen_parked_case(rng, "p%d" % i, nkeys=7) for i in range(n)]
+    cases = list(CORPUS) + [gen_world_case(rng, "g%d" % i, PROFILE) if i % 4 else (gen_parked_case(rng, "p%d" % i, nkeys=7) if i % 8 else gen_member_case(rng, "m%d" % i)) for i in range(n)]
     binary = build_harness("pkg/gossip", dirs=["gossip"])
     outs = run_world(binary, wd, cases)
     violations, known = [], []
